@@ -33,9 +33,12 @@ class Outcome:
         return cls is None or isinstance(self.exc, cls)
 
     def __repr__(self):
-        if self.kind == 'return':
-            return f'return {self.value!r}'
-        return f'raise {type(self.exc).__name__}({self.exc})'
+        try:
+            if self.kind == 'return':
+                return f'return {self.value!r}'
+            return f'raise {type(self.exc).__name__}({self.exc})'
+        except Exception:
+            return f'{self.kind} <unprintable {type(self.exc if self.kind != "return" else self.value).__name__}>'
 
 
 class Explorer:
